@@ -35,4 +35,28 @@ def mbrRba (extent : Nat) : Nat := extent * 4
 /-- GPT / MBR partition of an El Torito image at `extent` with `count` 512-byte sectors: (first, last) LBA -/
 def partLbas (extent count : Nat) : Nat × Nat := (extent * 4, extent * 4 + count - 1)
 
-end Pycdlib.Hybrid
+/-- the numbers `update_efi` puts into the two GPT headers and the first two partition entries -/
+structure GptGeo where
+  primaryLba : Nat          -- where the primary header says it is
+  backupLba : Nat           -- where both say the backup header is
+  firstUsable : Nat
+  lastUsable : Nat
+  primaryEntries : Nat      -- LBA of the primary partition array
+  backupEntries : Nat       -- LBA of the backup partition array
+  isoFirst : Nat            -- partition 1: the whole ISO
+  isoLast : Nat
+  efiFirst : Nat            -- partition 2: the EFI boot image
+  efiLast : Nat
+deriving Repr, DecidableEq
+
+/-- `update_efi(current_extent, sector_count, iso_size)` with `GPT.new(mac)` / `GPTHeader.new(mac)`:
+`GPT_SIZE = 128 / 4 + 2 = 34`, the Mac variant keeps a hole of `APM_PARTS * 4 + 2 = 14` sectors for the Apple partition
+map in front of the partition array -/
+def gptGeo (isoSize heads sectors extent count : Nat) (mac : Bool) : GptGeo :=
+  let pad := (calcCc isoSize heads sectors true).2
+  let total := isoSize + pad
+  let backup := (total - 512) / 512
+  let hole := if mac then 14 else 0
+  { primaryLba := 1, backupLba := backup, firstUsable := 34 + hole, lastUsable := total / 512 - 34,
+    primaryEntries := 2 + hole, backupEntries := backup - 32,
+    isoFirst := 0, isoLast := isoSize / 512 - 1, efiFirst := extent * 4, efiLast := extent * 4 + count - 1 }
